@@ -13,6 +13,7 @@ from .common import (
     LiquidError,
     VStrict,
     concrete_int,
+    drive,
     in_alpha,
     outcome,
     seed,
@@ -780,3 +781,49 @@ def g_single_edit(t: int, kind: int, pos: int, ch: str) -> bool:
     except Exception:  # noqa: BLE001
         return False
     return True
+
+
+# --------------------------------------------------------------------------------------
+# S-C02-hostile: well-formed programs of every tag kind over type-confused data (structure and data chosen by the solver)
+# --------------------------------------------------------------------------------------
+HOSTILE_SRC = [
+    "{% for i in (1..2) %}{% for x in forloop %}{{ x }}{% endfor %}{% for y in forloop.parentloop %}{{ y }}{% endfor %}{% endfor %}",
+    "{% translate x: w %}100%{{ x }}{% endtranslate %}{% translate x: w, count: u %}{{ x }}%{% plural %}%%{{ x }}{% endtranslate %}",
+    "{{ '100%%%(y)s' | t: y: w }}{{ '%(y)s%%' | t: y: u, count: w, plural: '%(y)s' }}",
+    "{% assign r = (1..w) %}{{ r.size }}{{ r.first }}{{ r.last }}{{ r[0] }}{{ r | size }}{{ r | first }}",
+    "{% assign r = (1..w) %}{% render 'p' for r %}",
+    "{% assign r = (u..w) %}{% include 'p' for r %}",
+    "{% if (1..w) contains u %}a{% endif %}{% if (1..w) contains 2.5 %}b{% endif %}{% if w contains u %}c{% endif %}{% if u in w %}d{% endif %}",
+    "{% for x in w %}{% for y in x %}{{ y }}{% endfor %}{{ forloop.index }}{% else %}E{% endfor %}",
+    "{% tablerow x in w cols: u %}{{ x }}{{ tablerowloop.col }}{% endtablerow %}{% tablerow x in (1..3) cols: w limit: u offset: w %}{{ x }}{% endtablerow %}",
+    "{% with a: w %}{% for i in a limit: u offset: w %}{{ forloop.length }}{% endfor %}{% for i in (1..3) limit: w offset: u reversed %}{{ i }}{% endfor %}{% endwith %}",
+    "{{ w[u] }}{{ w.size }}{{ w.first }}{{ w.last }}{{ w[0] }}{{ w[-1] }}{{ w[w] }}{{ u[w].x }}",
+    "{% case w %}{% when u %}x{% when w %}y{% else %}z{% endcase %}{{ w if u else w | default: u }}{% unless w == u %}n{% endunless %}",
+    "{% render 'p' with w as p %}{% include 'p' for w as q %}{% render 'p', p: u %}{% include 'p', p: w %}{% render 'p' for w %}",
+    "{% macro m, a, b: w %}{{ a }}{{ b }}{{ args | size }}{% endmacro %}{% call m, w %}{% call m, u, b: u %}{% call m %}",
+    "{{ \"a${w}b${ u | upcase }\" }}{% liquid\n echo w\n assign q = w | json\n echo q | size\n%}{% cycle w, u %}{% cycle w: 1, 2 %}",
+    "{% if w < u %}lt{% endif %}{% if w >= u %}ge{% endif %}{% if w and u or w %}t{% endif %}{% if w == empty or w == blank or w != nil %}e{% endif %}",
+    "{% capture c %}{{ w }}{% endcapture %}{{ c | size }}{% assign z = w %}{{ z }}{% echo w | default: u %}{% increment k %}{{ k | plus: w }}",
+]
+_HOSTILE_ENV = ShopifyEnvironment(loader=__import__("liquid2").DictLoader({"p": "[{{ p }}{{ q }}]"}))
+HOSTILE_T = [_HOSTILE_ENV.from_string(s) for s in HOSTILE_SRC]
+
+
+@cond(
+    pre=["0 <= i < len(_HOSTILE)", "0 <= j < len(_HOSTILE)"],
+    timeout=300,
+    shard={"p": list(range(len(HOSTILE_SRC)))},
+    covers="well-formed programs of every tag kind (nested loops over loop drops, translate blocks and filters with literal percent signs, huge ranges in size/first/last/render-for/include-for, contains on ranges and confused operands, tablerow/for arguments, paths, case/ternary/unless, partial bindings, macros, template strings, liquid tag, cycle, comparisons, capture/assign/echo/increment) rendered against every pair of type-confused values (nan, inf, 10^30, 10^5000, negative, wrong container types, nested values, ranges): only LiquidError escapes, sync and async",
+    bounds="17 programs x 29 x 29 hostile values (solver-chosen indexes, concrete execution)",
+    grid=lambda: [(p, i, j) for p in range(len(HOSTILE_SRC)) for i in (0, 3, 5, 9, 17, 23, 26, 28) for j in (1, 3, 7, 12, 20, 24)],
+)
+def s_hostile(p: int, i: int, j: int) -> bool:
+    i, j = concrete_int(i, 0, len(_HOSTILE) - 1), concrete_int(j, 0, len(_HOSTILE) - 1)
+
+    def run() -> bool:
+        t = HOSTILE_T[p]
+        if not _only_liquid(t.render, w=_HOSTILE[i], u=_HOSTILE[j]):
+            return False
+        return _only_liquid(lambda **d: drive(t.render_async(**d)), w=_HOSTILE[i], u=_HOSTILE[j])
+
+    return untraced(run)
